@@ -136,31 +136,38 @@ func (g *DirectedTargetGraph) GetDependants(target model.BuildNode) []model.Buil
 }
 
 // GetDescendants returns a list of nodes that are descendants (dependants) of the given node.
-// Recurses via the outEdges of each node.
+// Every descendant is listed exactly once, no matter how many paths lead to it.
 func (g *DirectedTargetGraph) GetDescendants(target model.BuildNode) []model.BuildNode {
-	var descendants []model.BuildNode
-	for _, descendant := range g.outEdges[target.GetLabel()] {
-		descendants = append(descendants, descendant)
-
-		// Recurse
-		recursiveDescendants := g.GetDescendants(descendant)
-		descendants = append(descendants, recursiveDescendants...)
-	}
-	return descendants
+	return collectReachable(target, g.outEdges)
 }
 
 // GetAncestors returns a list of nodes that are ancestors (transitive dependencies) of the given node.
-// Recurses via the inEdges of each node.
+// Every ancestor is listed exactly once, no matter how many paths lead to it.
 func (g *DirectedTargetGraph) GetAncestors(target model.BuildNode) []model.BuildNode {
-	var ancestors []model.BuildNode
-	for _, ancestor := range g.inEdges[target.GetLabel()] {
-		ancestors = append(ancestors, ancestor)
+	return collectReachable(target, g.inEdges)
+}
 
-		// Recurse
-		recursiveAncestors := g.GetAncestors(ancestor)
-		ancestors = append(ancestors, recursiveAncestors...)
+// collectReachable returns all nodes reachable from start via the given edges in
+// depth-first order. Nodes are visited once so that diamond-shaped graphs are
+// walked in linear time instead of once per path.
+func collectReachable(start model.BuildNode, edges map[label.TargetLabel][]model.BuildNode) []model.BuildNode {
+	var reachable []model.BuildNode
+	visited := make(map[label.TargetLabel]bool)
+
+	var visit func(node model.BuildNode)
+	visit = func(node model.BuildNode) {
+		for _, next := range edges[node.GetLabel()] {
+			if visited[next.GetLabel()] {
+				continue
+			}
+			visited[next.GetLabel()] = true
+			reachable = append(reachable, next)
+			visit(next)
+		}
 	}
-	return ancestors
+	visit(start)
+
+	return reachable
 }
 
 // hasNode checks whether a node exists in the graph.
